@@ -284,8 +284,16 @@ func c18(c *Ctx) {
 					passFault = "duplicate label"
 				case 2:
 					ctx.Function("pf")
-					ctx.MOVQ(operand.Mem{Disp: 8}, reg.RAX)
-					passFault = "memory operand without base"
+					if rng.Bool() {
+						ctx.MOVQ(operand.Mem{Disp: 8}, reg.RAX)
+						passFault = "memory operand without base"
+					} else {
+						// hand-built instruction: a named symbol but no base register
+						m := operand.Mem{Symbol: operand.Symbol{Name: "table", Static: true}, Disp: 8}
+						ctx.Instruction(&ir.Instruction{Opcode: "MOVQ", Operands: []operand.Op{m, reg.RAX}, Inputs: []operand.Op{m}, Outputs: []operand.Op{reg.RAX}})
+						ctx.RET()
+						passFault = "memory operand with a symbol but without base"
+					}
 				default:
 					ctx.Function("pf")
 					var vs []reg.GPVirtual
